@@ -224,7 +224,10 @@ func scaledSentences() (conds []c09Str, cvals val.Item, upds []c09Str, uvals val
 		"attribute_exists(a) IN (:m3)", "f IN (attribute_exists(a), :m3)", "f IN (:m3, contains(a, :v1))", "attribute_type(a, :s1) = f", "attribute_exists(attribute_exists(a))", "attribute_not_exists(begins_with(a, :v1))",
 		"contains(c, attribute_exists(a))", "begins_with(contains(a, :v1), :v1)", "a BETWEEN attribute_exists(a) AND :v1", "f BETWEEN :m3 AND contains(a, :v1)", "contains(a, :v1) BETWEEN :m3 AND :m3",
 		"(attribute_exists(a)) = :m3", "NOT attribute_exists(a) = :m3", "size(attribute_exists(a)) > :n1", "f = attribute_exists(a) AND a = :v1", "a = :v1 OR attribute_exists(a) <> f",
-		"attribute_exists(a) = :m3 AND attribute_exists(nope)", "attribute_type(f, attribute_exists(a))"} {
+		"attribute_exists(a) = :m3 AND attribute_exists(nope)", "attribute_type(f, attribute_exists(a))",
+		// ... and the other way round: size() yields a number, it is no condition - alone, under NOT, as an operand of AND / OR,
+		// whether or not the attribute it measures exists
+		"size(a)", "size(nope)", "NOT size(a)", "size(a) AND size(c)", "NOT (size(nope) AND size(nope2))", "size(nope) OR size(nope2)", "a = :v1 AND size(a)", "size(c) OR a = :v1", "(size(a))"} {
 		conds = append(conds, c09Str{c, "function-as-operand"})
 	}
 	big := []string{}
